@@ -59,9 +59,10 @@ type SliceV struct {
 
 // MapV: the object's value is *StructV{present Array(K,Bool), val Array(K,V)}
 type MapV struct {
-	Obj *Object
-	Nil *Term
-	T   *types.Map
+	Obj   *Object
+	Nil   *Term
+	T     *types.Map
+	Fresh *Term // the map object was created during the current function execution (nil: no)
 }
 
 type FuncV struct {
@@ -393,10 +394,29 @@ func (x *Exec) iteV(c *Term, a, bb Value) Value {
 		return &SliceV{Obj: p.Obj, Path: p.Path, Off: b.Ite(c, p.Off, q.Off), Len: b.Ite(c, p.Len, q.Len), Cap: b.Ite(c, p.Cap, q.Cap)}
 	case *MapV:
 		q := bb.(*MapV)
-		if p.Obj != q.Obj {
-			unsupported("merge of different maps")
+		fr := func(m *MapV) *Term {
+			if m.Fresh == nil {
+				return b.False()
+			}
+			return m.Fresh
 		}
-		return &MapV{Obj: p.Obj, Nil: b.Ite(c, x.mapNil(p), x.mapNil(q)), T: p.T}
+		if p.Obj != q.Obj {
+			if p.Obj == nil {
+				return &MapV{Obj: q.Obj, Nil: b.Ite(c, x.mapNil(p), x.mapNil(q)), T: q.T, Fresh: b.Ite(c, fr(p), fr(q))}
+			}
+			if q.Obj == nil {
+				return &MapV{Obj: p.Obj, Nil: b.Ite(c, x.mapNil(p), x.mapNil(q)), T: p.T, Fresh: b.Ite(c, fr(p), fr(q))}
+			}
+			pa, ok1 := x.curHeapA[p.Obj].(*StructV)
+			qa, ok2 := x.curHeapB[q.Obj].(*StructV)
+			if !ok1 || !ok2 {
+				unsupported("merge of different maps")
+			}
+			o := x.newObj("merged-map", nil)
+			x.pendingObjs[o] = x.iteV(c, pa, qa)
+			return &MapV{Obj: o, Nil: b.Ite(c, x.mapNil(p), x.mapNil(q)), T: p.T, Fresh: b.Ite(c, fr(p), fr(q))}
+		}
+		return &MapV{Obj: p.Obj, Nil: b.Ite(c, x.mapNil(p), x.mapNil(q)), T: p.T, Fresh: b.Ite(c, fr(p), fr(q))}
 	case *StrV:
 		q := bb.(*StrV)
 		if p.Known && q.Known && p.S == q.S {
